@@ -13,6 +13,7 @@ def check(ctx, rep):
     rep.trust('UdpSocket/UnixDatagram::send_to sends one datagram with exactly the given bytes or fails')
     K.rule_unbuffered(ctx, rep)
     K.rule_get_addr(ctx, rep)
+    K.rule_socket_untouched(ctx, rep, 'R4s')
     S.rule_A1(ctx, rep, 'R3-A1')
     S.rule_E1(ctx, rep, 'R3-E1')
     S.rule_A2_A3(ctx, rep)
